@@ -319,6 +319,10 @@ func genEpisode(r *hx.Rng, ip *interp, run func(string) string, n int, st *genSt
 		}
 		run("bal " + a + " " + v)
 	}
+	if !search && r.Chance(1, 3) {
+		run("nodecode") // stand-in main-node contract: operator-node transactions (type 7) can succeed
+		st.inc("node-contract-deployed")
+	}
 	if r.Chance(1, 5) {
 		run("code " + addrs[r.Intn(len(addrs))])
 		st.inc("contract-account")
@@ -487,6 +491,15 @@ func genEpisode(r *hx.Rng, ip *interp, run func(string) string, n int, st *genSt
 					st.inc("abort-then-topup")
 				}
 			}
+		case k < 90 && !search && r.Chance(1, 2):
+			// operator-node transaction (type 7): mostly by an account that controls a miner
+			_, _, ac, _, ok := e.knownMiner()
+			src := ac
+			if !ok || r.Chance(1, 4) {
+				src = e.src()
+			}
+			run("node " + h(src))
+			st.inc("operator-node")
 		case k < 90:
 			run("rewind") // discarded block execution (process-local history): only the key cache may remember it
 			st.inc("rewind")
